@@ -45,7 +45,7 @@ func (p probeCase) bytes() []byte {
 func C13(c *fw.Ctx) {
 	c.Level = "exploration"
 	c.SetExhaustive(true)
-	c.Rule("breadth-first from a directive-start position in thirteen contexts (file start, after a complete directive, after ')', inside an explicit " +
+	c.Rule("breadth-first from a directive-start position in nineteen contexts (file start, after a complete directive, after ')', inside an explicit " +
 		"context, after a bare '#' line, after a trailing bare '#', after a '###' block, after a CR-terminated comment, after an annotation with CRLF, after a response / Request / Body whose quoted or bracketed type parameter says that no body follows): every live prefix (neither rejected nor completed) is extended by each of the 256 bytes and by end of file; every completed " +
 		"keyword is followed by each of the 256 bytes and by end of file; oracle = independent list of the 30 keywords and the codes 100-599, " +
 		"terminator set {blank, tab, CR, LF, '#', '/', EOF}; the same word list x 257 followers and ~4000 near misses x 7 terminators are also probed " +
@@ -73,6 +73,14 @@ func C13(c *fw.Ctx) {
 		{"after-request-with-quoted-type", "JSIGHT 0.3\nPOST /a\n  Request \"@cat\"\n  "},
 		{"after-body-with-quoted-notation", "JSIGHT 0.3\nGET /a\n  200\n    Body \"any\"\n"},
 		{"after-response-with-type-array-and-annotation", "JSIGHT 0.3\nGET /a\n  200 [@cat] /* note */\n"},
+		// after a body whose last byte is followed by blanks, a tab or a comment on the same line (round 9: the state after the
+		// closing bracket of an ENUM is one of its own)
+		{"after-enum-and-blank", "JSIGHT 0.3\nENUM @e\n[\"a\"] \n"},
+		{"after-enum-tab-and-comment", "JSIGHT 0.3\nENUM @e\n[\n  \"a\"\n]\t# c\n"},
+		{"after-enum-and-block-comment", "JSIGHT 0.3\nENUM @e\n[\"a\"] ###\n x\n###\n"},
+		{"after-schema-and-blanks", "JSIGHT 0.3\nTYPE @t\n{\"k\": 1}   \n"},
+		{"after-regex-and-blank-comment", "JSIGHT 0.3\nTYPE @t regex\n/ab+/ # c\n"},
+		{"after-parenthesised-description", "JSIGHT 0.3\nGET /a\n  Description\n  (\n    text\n  )\n"},
 	}
 	pool := c.Pool(false, 0)
 	kindsHit := newStrSet()
@@ -175,9 +183,13 @@ func C13(c *fw.Ctx) {
 			sort.Strings(dead)
 			var dcases []probeCase
 			tails := []string{"\xbb\xbf", "\xbb\xbfGET /a\n", "\xbb\xbf\nGET /a\n", "\xa0", "\x80\xa8", "\x80\x8b", "\xbf\xbd", "\r\n", "\n", " ", "\nGET /a\n", " GET /a\n", "GET /a\n", "\x00", "\xff\xfe", "#\n", "//\n", "(\n", ")\n", "\"", "\\"}
+			afterBody := strings.HasPrefix(cx.name, "after-enum") || strings.HasPrefix(cx.name, "after-schema") || strings.HasPrefix(cx.name, "after-regex")
 			for i, w := range dead {
 				if len(w) > 1 && i%5 != 0 {
 					continue
+				}
+				if w == "/" && afterBody {
+					continue // the line after a body may begin the annotation of that directive: "/" is the first byte of "//" or "/*" there
 				}
 				pre, last := w[:len(w)-1], int(w[len(w)-1])
 				for b := 0; b < 256; b++ {
